@@ -71,6 +71,17 @@ def same(a, b):
   return H.norm(H.enc(a)) == H.norm(H.enc(b))
 
 
+def strict_same(a, b):
+  """Same Python value: sequences of either kind alike, but int / float / bool apart."""
+  if isinstance(a, (list, tuple)) and isinstance(b, (list, tuple)):
+    return len(a) == len(b) and all(strict_same(x, y) for x, y in zip(a, b))
+  if type(a) is not type(b):       # pylint: disable=unidiomatic-typecheck
+    return False
+  if isinstance(a, float) and math.isnan(a) and math.isnan(b):
+    return True
+  return a == b
+
+
 _BASE = {}
 
 
@@ -149,6 +160,21 @@ def run_case(src, dst, path, menu):
   meta = [c for c in post['_grist_Tables_column']['rows'].values() if c['colId'] == 'v']
   if not meta or meta[0]['type'] != dst:
     out.append(('C23/metadata-type-not-updated/%s' % tag, "metadata type is %r" % (meta and meta[0]['type'],)))
+  # a second engine that sees only the recorded doc actions (another session, a redo) must end up
+  # holding the same Python values: the conversions have to be IN the stored actions or be made
+  # by the doc action itself, not only by the user action that ran here
+  rep = H.Doc.load(base_snap(src, menu))
+  _g2, e2 = rep.try_apply([["ApplyDocActions", H.stored_reprs(g)]])
+  if e2 is not None:
+    out.append(('C23/replay-raised/%s/%s' % (tag, type(e2).__name__),
+                "%s %s -> %s: replaying the stored actions raised %s" % (path, src, dst, H.exc_text(e2))))
+  else:
+    # compared as every client sees the two engines (cells of v and of the formula reading it)
+    rd = rep.dump()
+    if rd['T'] != post['T']:
+      out.append(('C23/replica-differs/%s' % tag,
+                  "%s %s -> %s: an engine that replayed the stored actions reports other data: %s" % (
+                      path, src, dst, '; '.join(H.diff_dumps(post, rd)[:4]))))
   return out
 
 
